@@ -1,0 +1,113 @@
+//go:build verif
+
+package signature
+
+// Contracts for govc (comment-only; compiled only with -tags verif).
+
+// The message that is signed for a signed-subset: 64 spaces, the context
+// string of the version, a 0 byte, the signed bytes.
+//@ func generateSignedMessage
+//@   props C06 C18
+//@   may_panic
+//@   returns (msg)
+//@   ensures[is-the-signed-message,witness] subsetMsgOf(bytes(msg), bytes(signed), ver)
+//@   ensures[layout] len(msg) == 64 + len(ctxString(ver)) + 1 + len(signed) && (forall i int :: 0 <= i && i < 64 ==> msg[i] == 32) && msg[64 + len(ctxString(ver))] == 0 && (forall i int :: 0 <= i && i < len(signed) ==> msg[65 + len(ctxString(ver)) + i] == signed[i])
+//@   ensures[context-string] forall i int :: 0 <= i && i < len(ctxString(ver)) ==> msg[64 + i] == ctxString(ver)[i]
+//@   assigns nothing
+//@   loop 0:
+//@     invariant 0 <= i && i <= 64 && spos(buf) == 0 && send(buf) == i && accepted(buf) == i && !failed(buf)
+//@     invariant forall k int :: 0 <= k && k < i ==> sdata(buf)[k] == 32
+//@ uf subsetMsgOf(bytes, bytes, version.Version) bool
+//@ def ctxString(v version.Version) string = v == version.VersionB1 ? "Web Package 1 b1" : "Web Package 1 b2"
+
+// wellFormedAuthorities: what the bundle reader guarantees of parsed chains.
+//@ def authoritiesOK(a []*certurl.AugmentedCertificate) bool = forall i int :: 0 <= i && i < len(a) ==> a[i] != nil && a[i].Cert != nil && (typeis(a[i].Cert.PublicKey, *ecdsa.PublicKey) ==> (unboxed(a[i].Cert.PublicKey, *ecdsa.PublicKey) != nil && unboxed(a[i].Cert.PublicKey, *ecdsa.PublicKey).Curve != nil))
+
+//@ func decodeSubsetHashes
+//@   props C06 C10
+//@   may_panic
+//@   returns (shs, err)
+//@   requires dec != nil && dec.r != nil
+//@   ensures err == nil ==> shs != nil
+//@   ensures spos(dec.r) >= old(spos(dec.r)) && spos(dec.r) <= send(dec.r)
+//@   assigns spos(dec.r)
+//@   loop 0:
+//@     invariant shs != nil && fresh(shs) && dec.r != nil && spos(dec.r) >= old(spos(dec.r)) && spos(dec.r) <= send(dec.r)
+//@     decreases n - i
+//@   loop 1:
+//@     invariant shs != nil && fresh(shs) && dec.r != nil && rhs != nil && fresh(rhs) && spos(dec.r) >= old(spos(dec.r)) && spos(dec.r) <= send(dec.r) && i < n
+//@     invariant j % 2 == 1 && m % 2 == 1 && j <= m && (fresh(rhs.Hashes) || cap(rhs.Hashes) == 0)
+//@     decreases m - j
+
+// decodeSignedSubset: a complete signed-subset or an error.
+//@ func decodeSignedSubset
+//@   props C06 C10
+//@   may_panic
+//@   returns (ss, err)
+//@   ensures err == nil ==> ss != nil && fresh(ss) && ss.SubsetHashes != nil && ss.AuthSha256 != nil
+//@   assigns nothing
+//@   loop 0:
+//@     invariant result != nil && fresh(result) && dec != nil && dec.r != nil && fresh(dec) && fresh(dec.r)
+//@     decreases n - i
+
+// A vouched subset is accepted only if: its authority index is inside the
+// authorities list, its signature verifies under that authority's public key
+// over the message built from exactly its signed bytes, the signed subset's
+// auth-sha256 is the SHA-256 of that authority's certificate, and the
+// verification time lies inside [date, expires] with expires - date <= 7 days.
+//@ func verifyVouchedSubset
+//@   props C06 C09
+//@   may_panic
+//@   returns (vss, err)
+//@   requires vs != nil && authoritiesOK(authorities)
+//@   ensures[authority-in-range] err == nil ==> vs.Authority < uint64(len(authorities)) && vss != nil && vss.SignedSubset != nil && vss.Authority == authorities[vs.Authority]
+//@   ensures[signature-over-signed-bytes] err == nil ==> exists m []byte :: {bytes(m)} subsetMsgOf(bytes(m), bytes(vs.Signed), ver) && sigValid(authorities[vs.Authority].Cert.PublicKey, bytes(m), bytes(vs.Sig))
+//@   ensures[auth-sha256] err == nil ==> len(vss.SignedSubset.AuthSha256) == 32 && bytes(vss.SignedSubset.AuthSha256) == sha256of(cat(emptyBytes(), bytes(authorities[vs.Authority].Cert.Raw)))
+//@   ensures[lifetime-at-most-7-days] err == nil ==> (tsec(vss.SignedSubset.Expires) - tsec(vss.SignedSubset.Date)) * 1000000000 + tnsec(vss.SignedSubset.Expires) - tnsec(vss.SignedSubset.Date) <= 604800000000000
+//@   ensures[inside-window] err == nil ==> !(tsec(verificationTime) < tsec(vss.SignedSubset.Date) || (tsec(verificationTime) == tsec(vss.SignedSubset.Date) && tnsec(verificationTime) < tnsec(vss.SignedSubset.Date))) && !(tsec(verificationTime) > tsec(vss.SignedSubset.Expires) || (tsec(verificationTime) == tsec(vss.SignedSubset.Expires) && tnsec(verificationTime) > tnsec(vss.SignedSubset.Expires)))
+//@   assigns nothing
+
+// NewVerifier: every vouched subset was verified, in order, or an error.
+//@ func NewVerifier
+//@   props C06
+//@   may_panic
+//@   returns (v, err)
+//@   requires sigs != nil && authoritiesOK(sigs.Authorities) && (forall i int :: 0 <= i && i < len(sigs.VouchedSubsets) ==> sigs.VouchedSubsets[i] != nil)
+//@   ensures[all-verified] err == nil ==> v != nil && v.Version == ver && len(v.VerifiedSignedSubsets) == len(sigs.VouchedSubsets) && (forall k int :: 0 <= k && k < len(v.VerifiedSignedSubsets) ==> v.VerifiedSignedSubsets[k] != nil && v.VerifiedSignedSubsets[k].SignedSubset != nil && sigs.VouchedSubsets[k].Authority < uint64(len(sigs.Authorities)) && v.VerifiedSignedSubsets[k].Authority == sigs.Authorities[sigs.VouchedSubsets[k].Authority])
+//@   assigns nothing
+//@   loop 0:
+//@     invariant len(verifiedSubsets) == rangeindex + 1 && (fresh(verifiedSubsets) || cap(verifiedSubsets) == 0)
+//@     invariant forall k int :: 0 <= k && k < len(verifiedSubsets) ==> verifiedSubsets[k] != nil && verifiedSubsets[k].SignedSubset != nil && sigs.VouchedSubsets[k].Authority < uint64(len(sigs.Authorities)) && verifiedSubsets[k].Authority == sigs.Authorities[sigs.VouchedSubsets[k].Authority]
+
+// findResponseHashes: the entry of the first verified subset that lists the
+// URL, together with that subset's authority; (nil, nil) if none lists it.
+//@ func (*Verifier).findResponseHashes
+//@   props C06
+//@   may_panic
+//@   returns (rh, auth)
+//@   requires forall k int :: 0 <= k && k < len(v.VerifiedSignedSubsets) ==> v.VerifiedSignedSubsets[k] != nil && v.VerifiedSignedSubsets[k].SignedSubset != nil
+//@   ensures[first-listing-subset] (exists k int :: 0 <= k && k < len(v.VerifiedSignedSubsets) && has(v.VerifiedSignedSubsets[k].SignedSubset.SubsetHashes, requestUrl)) ==> (exists k int :: 0 <= k && k < len(v.VerifiedSignedSubsets) && has(v.VerifiedSignedSubsets[k].SignedSubset.SubsetHashes, requestUrl) && (forall j int :: 0 <= j && j < k ==> !has(v.VerifiedSignedSubsets[j].SignedSubset.SubsetHashes, requestUrl)) && rh == v.VerifiedSignedSubsets[k].SignedSubset.SubsetHashes[requestUrl] && auth == v.VerifiedSignedSubsets[k].Authority)
+//@   ensures[not-listed] (forall k int :: 0 <= k && k < len(v.VerifiedSignedSubsets) ==> !has(v.VerifiedSignedSubsets[k].SignedSubset.SubsetHashes, requestUrl)) ==> rh == nil && auth == nil
+//@   assigns nothing
+//@   loop 0:
+//@     invariant forall j int :: 0 <= j && j <= rangeindex ==> !has(v.VerifiedSignedSubsets[j].SignedSubset.SubsetHashes, requestUrl)
+
+// The header hash of a response (the SHA-256 of its re-encoded header CBOR).
+//@ uf respHeaderHashOf(bytes, http.Header, int) bool
+
+// VerifyExchange: an exchange no verified subset lists is reported as
+// unsigned (nil, nil); a result is returned only if the listed header hash
+// equals the response's header hash, the integrity identifier is the
+// version's, the digest header is present and the MI decoder accepted the
+// body; the authority handed back is the listing subset's.
+//@ func (*Verifier).VerifyExchange
+//@   props C06
+//@   may_panic
+//@   returns (res, err)
+//@   requires e != nil && e.Request.URL != nil
+//@   requires forall k int :: 0 <= k && k < len(v.VerifiedSignedSubsets) ==> v.VerifiedSignedSubsets[k] != nil && v.VerifiedSignedSubsets[k].SignedSubset != nil
+//@   ensures[result-or-error] res != nil ==> err == nil
+//@   ensures[unsigned-iff-not-listed] (forall k int :: 0 <= k && k < len(v.VerifiedSignedSubsets) ==> !has(v.VerifiedSignedSubsets[k].SignedSubset.SubsetHashes, e.Request.URL.String())) ==> res == nil && err == nil
+//@   ensures[verified-against-the-listing-subset] res != nil ==> exists k int :: 0 <= k && k < len(v.VerifiedSignedSubsets) && has(v.VerifiedSignedSubsets[k].SignedSubset.SubsetHashes, e.Request.URL.String()) && (forall j int :: 0 <= j && j < k ==> !has(v.VerifiedSignedSubsets[j].SignedSubset.SubsetHashes, e.Request.URL.String())) && res.Authority == v.VerifiedSignedSubsets[k].Authority && v.VerifiedSignedSubsets[k].SignedSubset.SubsetHashes[e.Request.URL.String()] != nil && len(v.VerifiedSignedSubsets[k].SignedSubset.SubsetHashes[e.Request.URL.String()].Hashes) == 1 && len(v.VerifiedSignedSubsets[k].SignedSubset.SubsetHashes[e.Request.URL.String()].VariantsValue) == 0
+//@   ensures[integrity-scheme] res != nil ==> (v.Version == version.VersionB1 || v.Version == version.VersionB2)
+//@   assigns nothing
